@@ -76,7 +76,7 @@ def instance(tier: str, seed: int = 0) -> dict:
         DsMargin='1/2',
         RgYs=['2', '-1/2', '0'] if quick else ['2', '-1/2', '0', '7', '13/10'],
         RgMs=['7/5', '-3', '0'] if quick else ['7/5', '-3', '0', '13/10', '9/2'],
-        RgSs=['1', '3/2', '1/4'] if quick else ['1', '3/2', '1/4', '5', '1/10'],
+        RgSs=['1', '3/2', '1/4', '-3/2'] if quick else ['1', '3/2', '1/4', '5', '1/10', '-3/2', '-1/4'],
         SgMaxVars=2 if quick else 3,
         SgLevelSets=[[0, 1], [1, 2, 3], [5, 2, 9]],
         # category of each value: one category per value (plain), or several values in one category -- the first value's
@@ -526,6 +526,10 @@ def rg_replay(r) -> dict:
         n += 1
         got = v if got is None else got
         _cmp(mism, 'regression:value', f, v, want, TOL_REG, how=how, **show)
+    if s < 0:
+        # the documented formula depends on sigma through sigma^2 only; a density with a negative standard deviation is
+        # not defined: nothing more is compared
+        return dict(n=n, mism=mism, cases=1, sample=dict(family='regression', **show, expected=terms.show(r['ll']), expected_value=want, observed=float(got)))
     # it is the logarithm of the library's own normal density
     pdf = _val(dst.normalpdf(Variable('y'), float(m), float(s)), d)[0]
     n += 1
